@@ -29,7 +29,7 @@ META = {
         'only under `not self.raw` and convert() is applied in both modes; C02.DISPATCH - a data row is recognised by the '
         'upper-cased first word; C02.BINARY - text from a file object whose mode contains b is decoded before parsing; '
         'C02.CONT - the continuation-joining pattern tolerates CR (and blanks) between the backslash and the newline; '
-        'C02.COMMENT-FIRST - comment-only lines are discarded before tokenising; C02.INTCONV - integer cells are converted by int() on the token text. C02.PER-INSTANCE - every container that methods fill through self is created per object in __init__ (no class-level mutable shared by all files); C02.TRIM - a line reaches the row/pair patterns trimmed on both sides whatever path trailing_comment takes; C02.CHARLEN - a char[] column without declared width takes the maximum of the value LENGTHS, and the maximum over a table without rows has a default; C02.TOKEN-WS - a bare word is split off with re.split over a whitespace class (blank and tab), maxsplit 1; C02.BINARY also: text/binary is decided without requiring a .mode attribute of the file object. C02.CHAR-EXACT - a column is taken for character data only when its base type equals `char` (no substring test on the type text); NOT decided: comment/quote parity, '
+        'C02.COMMENT-FIRST - comment-only lines are discarded before tokenising; C02.INTCONV - integer cells are converted by int() on the token text. C02.PER-INSTANCE - every container that methods fill through self is created per object in __init__ (no class-level mutable shared by all files); C02.TRIM - a line reaches the row/pair patterns trimmed on both sides whatever path trailing_comment takes; C02.CHARLEN - a char[] column without declared width takes the maximum of the value LENGTHS, and the maximum over a table without rows has a default; C02.TOKEN-WS - a bare word is split off with re.split over a whitespace class (blank and tab), maxsplit 1; C02.BINARY also: text/binary is decided without requiring a .mode attribute of the file object. C02.CHAR-EXACT - a column is taken for character data only when its base type equals `char` (no substring test on the type text); C02.BLANK-SKIP - a line holding only blanks, tabs or CR is skipped before it is tokenised (get_token indexes the first character); C02.BRACE-TRIM - the pattern of a brace-wrapped value leaves the blanks after `{` and before `}` outside the captured value; C02.QUOTE-PAIR - what get_token removes from a quoted word is exactly what protect added (no unescaping on one side only); NOT decided: comment/quote parity, '
         'token splitting, interleaved rows, char[] sizing, CRLF handling beyond the continuation pattern - these are '
         'statements about the language the regex chain accepts.'),
     'floors': {'C02.CHAR-EXACT': 1, 'C02.NAME-EXACT': 1, 'C02.PAT-PAIR': 2, 'C02.ANGLE': 8, 'C02.RAW': 2, 'C02.DISPATCH': 1, 'C02.BINARY': 2,
